@@ -1,0 +1,93 @@
+//! Verification hooks (feature `verif`): public access to the output entry
+//! builder / parser, which live in a private module and read private `Index`
+//! flags. Every function only forwards to the real implementation.
+
+use super::*;
+
+/// (index_sats, index_addresses, index_inscriptions)
+pub fn flags(index: &Index) -> (bool, bool, bool) {
+  (
+    index.index_sats,
+    index.index_addresses,
+    index.index_inscriptions,
+  )
+}
+
+pub struct ParsedUtxo {
+  pub total_value: u64,
+  pub sat_ranges: Option<Vec<(u64, u64)>>,
+  pub script_pubkey: Option<Vec<u8>>,
+  pub inscriptions: Option<Vec<(u32, u64)>>,
+}
+
+/// Builds an output entry the way the updater does: sat ranges (or the value),
+/// then the script, then the inscriptions — each only if the index keeps it.
+pub fn utxo_build(
+  index: &Index,
+  value: u64,
+  sat_ranges: &[(u64, u64)],
+  script_pubkey: &[u8],
+  inscriptions: &[(u32, u64)],
+) -> Vec<u8> {
+  let mut entry = UtxoEntryBuf::new();
+
+  if index.index_sats {
+    let mut bytes = Vec::new();
+    for range in sat_ranges {
+      bytes.extend_from_slice(&range.store());
+    }
+    entry.push_sat_ranges(&bytes, index);
+  } else {
+    entry.push_value(value, index);
+  }
+
+  if index.index_addresses {
+    entry.push_script_pubkey(script_pubkey, index);
+  }
+
+  if index.index_inscriptions {
+    for (sequence_number, offset) in inscriptions {
+      entry.push_inscription(*sequence_number, *offset, index);
+    }
+  }
+
+  <&UtxoEntry as redb::Value>::as_bytes(&entry.as_ref()).to_vec()
+}
+
+pub fn utxo_empty(index: &Index) -> Vec<u8> {
+  <&UtxoEntry as redb::Value>::as_bytes(&UtxoEntryBuf::empty(index).as_ref()).to_vec()
+}
+
+pub fn utxo_parse(index: &Index, bytes: &[u8]) -> ParsedUtxo {
+  let entry = <&UtxoEntry as redb::Value>::from_bytes(bytes);
+  let parsed = entry.parse(index);
+  ParsedUtxo {
+    total_value: parsed.total_value(),
+    sat_ranges: index.index_sats.then(|| {
+      parsed
+        .sat_ranges()
+        .chunks_exact(11)
+        .map(|chunk| SatRange::load(chunk.try_into().unwrap()))
+        .collect()
+    }),
+    script_pubkey: index
+      .index_addresses
+      .then(|| parsed.script_pubkey().to_vec()),
+    inscriptions: index
+      .index_inscriptions
+      .then(|| parsed.parse_inscriptions()),
+  }
+}
+
+pub fn utxo_to_buf_roundtrip(bytes: &[u8]) -> Vec<u8> {
+  let entry = <&UtxoEntry as redb::Value>::from_bytes(bytes);
+  let buf = entry.to_buf();
+  <&UtxoEntry as redb::Value>::as_bytes(&buf.as_ref()).to_vec()
+}
+
+pub fn utxo_merged(index: &Index, a: &[u8], b: &[u8]) -> Vec<u8> {
+  let a = <&UtxoEntry as redb::Value>::from_bytes(a);
+  let b = <&UtxoEntry as redb::Value>::from_bytes(b);
+  let merged = UtxoEntryBuf::merged(a, b, index);
+  <&UtxoEntry as redb::Value>::as_bytes(&merged.as_ref()).to_vec()
+}
